@@ -121,7 +121,12 @@ def gen_ip_lines(rng, fcfg, nlines, near=True):
                 toks.append([txt, {"t": "v4", "v": v, "sp": sp}])
             elif r < 0.5:
                 v = rng.choice(pool6) if rng.random() < 0.5 else rng.getrandbits(128) >> rng.choice([0, 0, 16, 64, 96])
-                if rng.random() < 0.08:
+                if rng.random() < 0.06:
+                    # exactly one zero group, at an end, written as "::"
+                    v = rng.getrandbits(128) | sum(1 << (16 * i) for i in range(8))
+                    v = v & ~0xFFFF if rng.random() < 0.5 else v & ((1 << 112) - 1)
+                    txt, sp = lines.v6_text(rng, v, "edge1")
+                elif rng.random() < 0.08:
                     # every group below 0x100, written with two digits per group
                     v = sum(rng.randrange(256) << (16 * i) for i in range(8))
                     txt, sp = lines.v6_text(rng, v, rng.choice(["pad2", "pad2", "nozip"]))
@@ -222,6 +227,35 @@ def _file(ctx, case):
             return
         if any(l["t"] in ("v4", "v6") for _, l in segs) and anon.split(eol)[i] != lines.text_of(segs):
             ctx.distinct(("file", fcfg["salt"], lines.text_of(segs)))
+    # the anonymized text may have been through other hands before it is undone: the same addresses written in another
+    # legal spelling (zero-padded octets, upper case, uncompressed groups) must come back all the same
+    if case["lseed"] % 3 == 0:
+        rs = random.Random(case["lseed"] ^ 0x5BE11)
+        relns = []
+        for segs in lns:
+            row = []
+            for text, lab in segs:
+                if lab["t"] == "v4" and not ref.untouched4(lab["v"]) and not ipgen.is_mask_ref(ref.fwd4(lab["v"])):
+                    row.append(lines.v4_text(rs, ref.fwd4(lab["v"]), rs.choice(["canon", "zeros", "zeros1"]))[0])
+                elif lab["t"] == "v6":
+                    row.append(lines.v6_text(rs, ref.fwd6(lab["v"]), rs.choice(["canon", "full", "upper", "mixed", "nozip", "padded"]))[0])
+                elif lab["t"] == "v4":
+                    # left alone by the forward run (as written), or an image that is mask-shaped (exempt: stays)
+                    row.append(text if ref.untouched4(lab["v"]) else ipref.s4(ref.fwd4(lab["v"])))
+                else:
+                    row.append(text)
+            relns.append(row)
+        if all(x is not None for row in relns for x in row):
+            respelled = "".join("".join(row) + eol for row in relns)
+            back2 = ipref.run_io(ipref.file_anonymizer(fcfg, undo=True), respelled).split(eol)
+            for i, segs in enumerate(lns):
+                exp = expected_undone(segs, ref)
+                ctx.count("respelled_lines_undone")
+                if (back2[i] if i < len(back2) else None) != exp:
+                    ctx.violation(dict(case, lines=[segs]), "file-undo-mismatch:respelled",
+                                  "undo of the anonymized line in another spelling %r gave %r, expected %r"
+                                  % ("".join(relns[i]), back2[i] if i < len(back2) else None, exp))
+                    return
     ctx.sample({"kind": "file", "fcfg": fcfg, "line": lines.text_of(lns[0]), "anonymized": anon.split(eol)[0], "undone": got[0]})
 
 
